@@ -87,7 +87,7 @@ def run_and_check(mod, case):
 
     # every case is run in its JSON-normalised form, exactly as a replay file would give it back
     case = json.loads(json.dumps(case, sort_keys=True))
-    res = run_case(case)
+    res = getattr(mod, "run_case", run_case)(case)  # other engines (zmq_sim, fs_sim) bring their own runner
     if res.aborted and res.aborted[0] == "SimInfeasible":
         # schedule not expressible single-threaded (see kernel.SimInfeasible): discarded, counted
         res.sim.probe("discarded_infeasible_schedule")
